@@ -143,7 +143,11 @@ class C02(Check):
         n_leaves = 0
         if entry in ("run", "run_sweep", "sample"):
             ctx.probe("path:terminal-fast" if self._is_terminal_path(cirq, circuit) else "path:per-repetition")
-            n_leaves = qdrive.check_run(P, circuit, cfg, reps, ctx, max_leaves=400, entry=entry)
+            int_seed = None
+            if kind != "stab-sampler" and tape.chance(1, 6, "integer-seed?"):
+                int_seed = [0, 7, 2 ** 31][tape.draw(3, "seed-value")]
+                ctx.probe("seed:integer")
+            n_leaves = qdrive.check_run(P, circuit, cfg, reps, ctx, max_leaves=400, entry=entry, int_seed=int_seed)
         else:
             order = sorted(circuit.all_qubits())
             if len(order) > 1 and tape.chance(1, 3, "permute-order?"):
